@@ -228,17 +228,30 @@ def judge_zero(case, out, fn, i):
     return None
 
 
+def run_padded(ctx, what, binary, lines, env=None, timeout=600):
+    """run a driver; its answers aligned with `lines` (missing ones = `<no output>`); a driver that
+    ends with an exit code or stops before the last line is itself reported (no input blamed: the
+    callers judge the individual `<no output>` answers)"""
+    rc, out = pv.run_lines(binary, lines, env=env, timeout=timeout)
+    if rc != 0 or len(out) < len(lines):
+        ctx.violation("driver", {"kind": "driver-stopped-early", "what": what, "driver": binary, "rc": rc, "answered": len(out), "asked": len(lines),
+                                 "first_unanswered": lines[len(out)] if len(out) < len(lines) else None, "tail": out[-3:]}, False,
+                      "%s: the driver %s ended with exit code %d after %d of %d answers%s"
+                      % (what, os.path.basename(binary), rc, len(out), len(lines),
+                         (" (first unanswered: `%s`)" % lines[len(out)]) if len(out) < len(lines) else ""))
+    return out + ["<no output>"] * (len(lines) - len(out))
+
+
 def run_impl(ctx, impl, cases, timeout=900):
     """run cases on the asan harness; a case that ends in ASan's `operator new` abort (ASan
     never throws std::bad_alloc) is re-run on the unsanitized build, whose answer counts"""
-    rc, out = pv.run_lines(impl, cases, env=ASAN_ENV, timeout=timeout)
-    out = out + ["<no output>"] * (len(cases) - len(out))
+    out = run_padded(ctx, "probes on the sanitized build", impl, cases, env=ASAN_ENV, timeout=timeout)
     idx = [i for i, o in enumerate(out) if o == "asan-oom"]
     if idx:
         plain = pv.build_harness("plain", "capi_drv", extra="-lprimitiv_c -I" + gen_dir())
-        rc2, o2 = pv.run_lines(plain, [cases[i] for i in idx], timeout=timeout)
+        o2 = run_padded(ctx, "re-run on the plain build", plain, [cases[i] for i in idx], timeout=timeout)
         for j, i in enumerate(idx):
-            out[i] = o2[j] if j < len(o2) else "<no output>"
+            out[i] = o2[j]
         ctx.cov["rerun_on_plain_build_after_asan_operator_new_abort"] = ctx.cov.get("rerun_on_plain_build_after_asan_operator_new_abort", 0) + len(idx)
     return out
 
@@ -263,19 +276,28 @@ def run_(ctx):
     # ---- (T) regenerate the table from the current tree
     bdir = pv.build_impl("asan")
     ok, tout, tjson = translate(bdir)
+    okf, outf, fjson = translate.fwd
+    # a translator that cannot read the source: the tie (T) is lost (violation, no input).  The dynamic
+    # probes below still run -- they look for a concrete failing call on the library as built -- over the
+    # last tables read from /repo (the ones coq/Gen/CApiTable.v / CApiFwd.v, left untouched, correspond to)
+    stale = []
     if not ok:
-        ctx.prove()   # still report the state of the development
         ctx.violation("translator", {"kind": "translator-failure", "output": tout[-3000:],
                                      "witness": "capi translator :: " + tout.strip().splitlines()[-1][:200] if tout.strip() else "capi translator"},
                       False, "translate/gen_capi.py cannot read primitiv/c: %s" % tout.strip()[-600:])
-        return
-    okf, outf, fjson = translate.fwd
+        tjson = os.path.join(pv.WORK, "gen", "capi_table.json")
+        stale.append("gen_capi")
     if not okf:
-        ctx.prove()
         ctx.violation("translator", {"kind": "translator-failure", "output": outf[-3000:],
                                      "witness": "capi translator :: " + (outf.strip().splitlines()[-1][:200] if outf.strip() else "gen_capi_fwd")},
                       False, "translate/gen_capi_fwd.py cannot read primitiv/c: %s" % outf.strip()[-600:])
-        return
+        fjson = os.path.join(pv.WORK, "gen", "capi_fwd.json")
+        stale.append("gen_capi_fwd")
+    if stale:
+        ctx.cov["translator_failed"] = {"translators": stale, "dynamic_probes_run_over": "the last tables read from /repo (%s, %s)" % (tjson, fjson)}
+        if not (os.path.exists(tjson) and os.path.exists(fjson)):
+            ctx.prove()   # still report the state of the development
+            return
     table = json.load(open(tjson))
     fwdjs = json.load(open(fjson))
     fns = {f["name"]: f for f in table["functions"]}
@@ -315,7 +337,19 @@ def run_(ctx):
     model = pv.build_ocaml("capi")
     import capi_calls
     os.makedirs(gen_dir(), exist_ok=True)
-    capi_calls.generate(tjson, os.path.join(gen_dir(), "capi_calls.inc"))
+    no_stub = capi_calls.generate(tjson, os.path.join(gen_dir(), "capi_calls.inc")).get("no_stub", {})
+    if no_stub:
+        # source that is new to the harness (an object class without a fixture, a parameter shape without a
+        # recipe): these wrappers are not probed -- "not shown to hold", no input blamed, no traceback
+        ctx.cov["wrappers_unknown_to_the_harness"] = no_stub
+        ctx.violation("harness-incomplete", {"kind": "harness-incomplete", "wrappers": no_stub,
+                                             "witness": "capi harness :: no call stub :: " + ",".join(sorted(no_stub))}, False,
+                      "unknown to the harness: translate/capi_calls.py cannot build valid arguments for %s; these wrappers are left out of the dynamic probes "
+                      "(the table theorems still cover them)" % "; ".join("%s (%s)" % kv for kv in sorted(no_stub.items())))
+        table = dict(table)
+        table["functions"] = [f for f in table["functions"] if f["name"] not in no_stub]
+        fwdjs = dict(fwdjs)
+        fwdjs["functions"] = [f for f in fwdjs["functions"] if f["name"] not in no_stub]
     impl = pv.build_harness("asan", "capi_drv", extra="-lprimitiv_c -I" + gen_dir())
     dist = {}
     # ---- (a) NULL in every pointer position, NULL elements, baseline; model = extracted `expect`
@@ -336,13 +370,21 @@ def run_(ctx):
     pv.correspondence(ctx, "capi-null", cases, impl, model, nontrivial=nontriv, functional=True, impl_env=ASAN_ENV)
     # ---- (d) size-query protocol on every array / string returning function; model = spec_helper
     sqf = sizequery_functions(table)
-    rc, lens = pv.run_lines(impl, ["sqlen " + f for f in sqf], env=ASAN_ENV)
+    lens = run_padded(ctx, "size queries", impl, ["sqlen " + f for f in sqf], env=ASAN_ENV)
     sq_cases = []
     for f, l in zip(sqf, lens):
         m = re.match(r"^len (\d+)$", l)
         if not m:
-            ctx.violation("sqlen", {"kind": "size-query", "case": "sqlen " + f, "impl": l, "witness": "capi size-query :: sqlen %s" % f,
-                                    "impl_driver": impl}, True, "size query of %s: `%s`" % (f, l))
+            if l == "unknown-function":
+                # a wrapper with the size-query convention that harness/capi_drv.cc has no call for (new
+                # since the harness was written): its protocol is not shown to hold, no input is blamed
+                ctx.violation("sqlen-unknown", {"kind": "harness-incomplete", "case": "sqlen " + f, "impl": l, "wrapper": f,
+                                                "witness": "capi size-query :: unknown to the harness :: %s" % f}, False,
+                              "%s follows the size-query convention (per the translator) but harness/capi_drv.cc (sq_with) has no call for it: "
+                              "its size-query protocol was not probed" % f)
+            else:
+                ctx.violation("sqlen", {"kind": "size-query", "case": "sqlen " + f, "impl": l, "witness": "capi size-query :: sqlen %s" % f,
+                                        "impl_driver": impl}, True, "size query of %s: `%s`" % (f, l))
             continue
         for mode in ("null", "zero", "one", "short", "exact", "larger"):
             sq_cases.append("sq %s %s %s" % (f, m.group(1), mode))
@@ -442,7 +484,7 @@ def run_(ctx):
         if off:
             found = c20_fwd.search(ctx, fwdjs, off, lambda cs: run_impl(ctx, impl, cs), impl, BAD, 24 if quick else 200) or found
         if not found and not any(fi for (_, fi, _) in ctx.violations):
-            rc, dg = pv.run_lines(model, ["diag " + f["name"] for f in table["functions"]])
+            dg = run_padded(ctx, "row diagnostics of the model", model, ["diag " + f["name"] for f in table["functions"]])
             rows = {f["name"]: d for f, d in zip(table["functions"], dg) if d != "-"}
             ctx.proof_broken(extra={"offending_rows": rows, "forwarding_offenders": off, "helpers": table["helpers"], "translator_unrecognised": {"wrappers": unread, "helpers": unrec}})
     elif unread or unrec:
@@ -474,10 +516,10 @@ def search_failing_call(ctx, table, impl, model):
     """DESIGN 2.3(2): from the rows the table theorems reject, construct the concrete call and run
     it on the real library."""
     fns = {f["name"]: f for f in table["functions"]}
-    rc, dg = pv.run_lines(model, ["diag " + f["name"] for f in table["functions"]])
+    dg = run_padded(ctx, "row diagnostics of the model", model, ["diag " + f["name"] for f in table["functions"]])
     probes = []
     for f, d in zip(table["functions"], dg):
-        if d == "-" or d == "unknown-function":
+        if d == "-" or d == "unknown-function" or d == "<no output>":
             continue
         for item in d.split(","):
             chk, _, k = item.partition(":")
@@ -498,7 +540,7 @@ def search_failing_call(ctx, table, impl, model):
     # helper table: the size-query protocol cases were already run against the specification
     found = False
     if probes:
-        rc, outs = pv.run_lines(impl, [p[1] for p in probes], env=ASAN_ENV)
+        outs = run_padded(ctx, "calls constructed from the rejected rows", impl, [p[1] for p in probes], env=ASAN_ENV)
         for (chk, case, rule), out in zip(probes, outs):
             bad = False
             if BAD.match(out):
